@@ -307,3 +307,16 @@ Definition check_proj (p : params) (j : proj) (k : case) : bool :=
   && list_eqb event_eqb (project j (rev (hist s))) (project j (k_trace k))
   && (negb (pj_rmap j) || list_eqb Nat.eqb (sort_nat (keys (rmap s))) (k_final_rmap k))
   && (negb (pj_store j) || list_eqb Nat.eqb (sort_nat (dedup (keys (store s)))) (k_final_store k)).
+
+(* ---- what runner.wait() can hand back for a task, and how process_completed_tasks books it.  The runners catch BaseException
+   around the task (KeyboardInterrupt excepted) and hand the exception object back: an ordinary exception, or one that is only a
+   BaseException (SystemExit from sys.exit(), GeneratorExit). *)
+Inductive handed := HResult | HException | HBaseOnly.
+Inductive booked := BCompleted | BFailed | BUnexpected.     (* BUnexpected: LabError('Unexpected task res type') out of run_tasks *)
+Definition book (m : fail_test) (h : handed) : booked :=
+  match h, m with
+  | HResult, _ => BCompleted
+  | HException, (FailBaseException | FailException) => BFailed
+  | HBaseOnly, FailBaseException => BFailed
+  | _, _ => BUnexpected
+  end.
